@@ -1284,3 +1284,9 @@ func (fi *FuncInfo) LocNames(s LocSet) []string {
 }
 
 func JoinNames(xs []string) string { return strings.Join(xs, ", ") }
+
+// Translate maps a callee location to caller locations at a (non-Once) call site.
+func (fi *FuncInfo) Translate(c ssa.CallInstruction, l Loc) []Loc { return fi.translate(c, false, l) }
+
+// PtsOf exposes the points-to set of a pointer/slice value.
+func (fi *FuncInfo) PtsOf(v ssa.Value) []PVal { return fi.operand(v) }
